@@ -36,8 +36,9 @@ UserAccess(v) ==
     /\ UNCHANGED <<pc, disk, saves, goal>>
     /\ act' = [op |-> "access", v |-> v]
 
+\* (which views were asked for no longer matters once save() runs: only what is cached does)
 SaveBegin == /\ pc = 0 /\ saves < MaxSaves
-             /\ pc' = 1 /\ goal' = SaveAll(St) /\ UNCHANGED <<cache, raw, disk, acc, any, saves>>
+             /\ pc' = 1 /\ goal' = SaveAll(St) /\ acc' = {} /\ UNCHANGED <<cache, raw, disk, any, saves>>
              /\ act' = [op |-> "save"]
 
 \* one iteration of the loop over LUMP_REBUILD_ORDER that finds a cached view
